@@ -37,7 +37,7 @@ func init() {
 	RegisterSub("C17", "crossbuild", RunC17CrossBuild)
 }
 
-const c17Rule = "history: catalogue struct types x random rows x random writer configuration (gen.RandWriterCfg + bloom filters, deferred blooms, key/value metadata, declared sorting columns, forced dictionary overflow) x instance history: the file written by an instance that was Reset after {abandoned, abandoned after row-by-row writes, flushed, closed, closed empty, failed sink, two generations, reset mid-file, random op sequence, SetKeyValueMetadata} over OTHER rows must equal byte-for-byte the file of a fresh instance; instances GenericWriter, Writer, SortingWriter, GenericBuffer/Buffer.Reset -> WriteRowGroup; repeated fresh writes on the same and on 3 other goroutines, and with the key/value options permuted; non-trivial = non-empty rows and a prior history that wrote rows. crossbuild: per catalogue type seeded (rows, config, write path) cases and 30k/400k encoder inputs (hybrid RLE int32/levels, delta binary packed, byte stream split) whose sha256 / output bytes the asm and purego builds must agree on (digests exchanged through .build/out/C17-digests-<variant>.json); non-trivial = more than one row / at least 8 values. mirror (L2): a real Writer under a random history vs the Lean mirror (reset.run), observation compared after every step; all cases non-trivial."
+const c17Rule = "history: catalogue struct types x random rows x random writer configuration (gen.RandWriterCfg + bloom filters, deferred blooms, key/value metadata, declared sorting columns, forced dictionary overflow) x instance history: the file written by an instance that was Reset after {abandoned, abandoned after row-by-row writes, flushed, closed, closed empty, failed sink, two generations, reset mid-file, random op sequence, SetKeyValueMetadata} over OTHER rows must equal byte-for-byte the file of a fresh instance; instances GenericWriter, Writer, SortingWriter, GenericBuffer/Buffer.Reset -> WriteRowGroup; repeated fresh writes on the same and on 3 other goroutines, and with the key/value options permuted; non-trivial = non-empty rows and a prior history that wrote rows. crossbuild: per catalogue type seeded (rows, config, write path) cases and 30k/400k encoder inputs (hybrid RLE int32/levels, delta binary packed, byte stream split), big-page files (one PLAIN column per numeric kind, pages filled to the default 256 KiB target and beyond, values across 2^31 / 2^63, NaN, -0.0) and Page.Bounds of pages at the kernel-switch lengths 32112..131071(..262144) whose sha256 / output bytes the asm and purego builds must agree on (digests exchanged through .build/out/C17-digests-<variant>.json); non-trivial = more than one row / at least 8 values. mirror (L2): a real Writer under a random history vs the Lean mirror (reset.run), observation compared after every step; all cases non-trivial."
 
 // ---------------------------------------------------------------- configuration
 
@@ -757,9 +757,20 @@ type c17XCase struct {
 	batches []int
 	path    string
 	sortRow int64
+	big     *c17Big // a big-page case (c17_bigpage.go): e, cfg, rows are unset
+}
+
+func (c *c17XCase) canon() string {
+	if c.big != nil {
+		return "file|" + c.id + "|" + c.big.desc()
+	}
+	return "file|" + c.id + "|" + c.cfg.desc + "|" + strings.Join(c17RowTexts(c.e, c.rows), "|")
 }
 
 func (c *c17XCase) write() ([]byte, error) {
+	if c.big != nil {
+		return c.big.write()
+	}
 	switch c.path {
 	case c17Generic, c17Sorting:
 		f, err, _ := c17Run(c.path, c.e, c.cfg, c.sortRow, nil, c.rows, c.rows, c.batches)
@@ -770,6 +781,9 @@ func (c *c17XCase) write() ([]byte, error) {
 }
 
 func (c *c17XCase) detail(ctx *core.Ctx) map[string]any {
+	if c.big != nil {
+		return map[string]any{"case": c.id, "input": c.big.desc(), "write_path": c.path, "this_variant": ctx.Variant}
+	}
 	return map[string]any{"case": c.id, "type": c.e.Name, "config": c.cfg.desc, "batches": c.batches, "write_path": c.path,
 		"sort_row_count": c.sortRow, "rows": c17RowTexts(c.e, c.rows), "this_variant": ctx.Variant}
 }
@@ -938,7 +952,11 @@ func (c *c17EncCase) run() (out string) {
 func RunC17CrossBuild(ctx *core.Ctx) {
 	ctx.SetRule(c17Rule)
 	cases := c17XCases(ctx)
+	for i, b := range c17BigCases(ctx.Rand("c17x/big-pages"), ctx.Thorough()) {
+		cases = append(cases, &c17XCase{id: fmt.Sprintf("big-page/%d/%s", i, b.profile), path: "big-page-generic-writer", big: b})
+	}
 	encs := c17EncCases(ctx)
+	bounds := c17BoundsCases(ctx.Rand("c17x/page-bounds"), ctx.Thorough())
 	mine := c17DigestFile{Seed: ctx.Seed, Tier: ctx.Tier, Variant: ctx.Variant, Session: os.Getppid()}
 	if v := os.Getenv("VERIF_C17_SESSION"); v != "" { // manual runs outside ./check
 		fmt.Sscanf(v, "%d", &mine.Session)
@@ -974,7 +992,7 @@ func RunC17CrossBuild(ctx *core.Ctx) {
 				}
 			}
 			mine.Files[i] = d
-			ctx.Case("file|"+c.id+"|"+c.cfg.desc+"|"+strings.Join(c17RowTexts(c.e, c.rows), "|"), c.rows.Len() > 1)
+			ctx.Case(c.canon(), c.big != nil || c.rows.Len() > 1)
 			ctx.Hist("crossbuild-write-path", c.path)
 			for _, s := range d.secs {
 				if strings.Contains(s.Class, "page") {
@@ -984,7 +1002,18 @@ func RunC17CrossBuild(ctx *core.Ctx) {
 		}(i)
 	}
 	wg.Wait()
-	mine.Enc = make([]c17EncDigest, len(encs))
+	mine.Enc = make([]c17EncDigest, len(encs)+len(bounds))
+	for i := range bounds {
+		wg.Add(1)
+		sem <- struct{}{}
+		go func(i int) {
+			defer wg.Done()
+			defer func() { <-sem }()
+			mine.Enc[len(encs)+i] = c17EncDigest{ID: bounds[i].id, Out: bounds[i].run()}
+			ctx.Case("bounds|"+bounds[i].desc(), true)
+			ctx.Hist("crossbuild-page-bounds", bounds[i].typ)
+		}(i)
+	}
 	chunk := (len(encs) + 15) / 16
 	for lo := 0; lo < len(encs); lo += chunk {
 		hi := lo + chunk
@@ -1058,6 +1087,13 @@ func RunC17CrossBuild(ctx *core.Ctx) {
 		d[ctx.Variant+"_len"], d[other+"_len"] = a.Len, b.Len
 		ctx.Fail("L1", "crossbuild-"+class, fmt.Sprintf("the %s and %s builds write different bytes for the same rows and options: first difference %s at %s; the two files decode to the same rows: %v",
 			ctx.Variant, other, class, label, same), d)
+	}
+	for i, c := range bounds {
+		a, b := mine.Enc[len(encs)+i], peer.Enc[len(encs)+i]
+		if a.Out != b.Out {
+			ctx.Fail("L1", "crossbuild-page-bounds-"+c.typ, fmt.Sprintf("Page.Bounds of a %s page of %d values differs between the %s and %s builds: %s vs %s",
+				c.typ, c.n, ctx.Variant, other, a.Out, b.Out), map[string]any{"case": c.id, "input": c.desc(), ctx.Variant: a.Out, other: b.Out})
+		}
 	}
 	for i, c := range encs {
 		a, b := mine.Enc[i], peer.Enc[i]
